@@ -1,8 +1,9 @@
 """C11 -- baskets: books match the bank, backing, mint/burn/swap value preservation, limits, caps,
 switches.  Hand-written model (Model/Basket.v) + proofs + differential run of the real basket msg
 server / proposal handlers / hooks / end blocker on multi-holder histories; spec checker evaluated in
-Coq on the real observations.  The model has two variants (current code / proposed repairs); the
-harness probes which one the tree implements."""
+Coq on the real observations.  The model is parametric in three repaired places (burn reads the supply
+before burning / EditBasket keeps the amount (68b9c08) / pool-upsert hook skips); the harness probes which
+variant the tree implements."""
 import json, os
 
 FILES = ["Base/Prelude.v", "Base/Dec.v", "Model/Basket.v", "Model/C11Check.v", "Proofs/Basket.v"]
@@ -73,5 +74,5 @@ def run(R):
                 report(R, viol2, cases2, seen)
                 if R.violations:
                     break
-    R.finish(level="proof", technique="Coq proofs over a hand-written model of x/basket (two variants: current code / proposed repairs) + differential run of the real msg server, proposal handlers, hooks and end blocker on multi-holder histories; spec checker vm_computed on the real observations",
+    R.finish(level="proof", technique="Coq proofs (invariants over histories by induction over the operation list) over a hand-written model of x/basket, parametric in three repairs probed on the tree, + differential run of the real msg server, proposal handlers, hooks and end blocker on multi-holder histories; spec checker vm_computed on the real observations",
              extra={"evaluations": total})
